@@ -362,9 +362,9 @@ func genBehaviour(r *rand.Rand, g *gen, op kmip.Enum) behaviour {
 			return behaviour{kind: "S", payload: &x}
 		}
 	case 6, 7:
-		return behaviour{kind: "F", msg: string(g.bytesv())}
+		return behaviour{kind: "F", msg: g.msgv()}
 	case 8, 9:
-		return behaviour{kind: "R", msg: "denied " + string(g.bytesv()), reason: kmip.Enum(1 + r.Intn(24))}
+		return behaviour{kind: "R", msg: "denied " + g.msgv(), reason: kmip.Enum(1 + r.Intn(24))}
 	default:
 		switch r.Intn(10) {
 		case 0:
@@ -637,6 +637,154 @@ func runSession(ss *scriptedServer, index int, c sessionCase, viol func(string, 
 	return
 }
 
+// sessionBurst (C09): many connections pending at the listener at once (a burst of clients, or a listener with a
+// backlog).  Every handler invocation must see the session id of ITS OWN connection: ids are assigned in accept order,
+// distinct for distinct connections, and stay the same for every request of a connection.
+func sessionBurst(rep *Report, viol func(string, map[string]interface{})) {
+	procs := runtime.GOMAXPROCS(0)
+	defer runtime.GOMAXPROCS(procs)
+	for round := 0; round < 6; round++ {
+		nconn := 24
+		if round%2 == 1 {
+			// one scheduler thread: the accept loop runs through the whole backlog before any session goroutine starts
+			runtime.GOMAXPROCS(1)
+		}
+		s := &kmip.Server{Log: log.New(io.Discard, "", 0)}
+		var mu sync.Mutex
+		seen := map[string]map[string]int{} // connection name -> session ids seen by its handler invocations
+		s.SessionAuthHandler = func(conn net.Conn) (interface{}, error) { return conn.(*memConn).name, nil }
+		s.Handle(kmip.OPERATION_DISCOVER_VERSIONS, func(ctx *kmip.RequestContext, item *kmip.RequestBatchItem) (interface{}, error) {
+			mu.Lock()
+			name := fmt.Sprint(ctx.SessionAuth)
+			if seen[name] == nil {
+				seen[name] = map[string]int{}
+			}
+			seen[name][ctx.SessionID]++
+			mu.Unlock()
+			return kmip.DiscoverVersionsResponse{}, nil
+		})
+		lis := newMemListener()
+		var conns []*memConn
+		for i := 0; i < nconn; i++ {
+			mc := newMemConn(fmt.Sprintf("burst-%d", i))
+			conns = append(conns, mc)
+			lis.ch <- acceptResult{conn: mc} // queued before Serve starts: all pending at once
+		}
+		served := make(chan error, 1)
+		init := make(chan struct{})
+		go func() { served <- s.Serve(lis, init) }()
+		<-init
+		req := dvRequest()
+		for _, mc := range conns {
+			mc.peerSend(req)
+			mc.peerSend(req)
+		}
+		for _, mc := range conns {
+			mc := mc
+			mc.waitUntil(5*time.Second, func() bool { return len(splitMessages(mc.out)) >= 2 || mc.localClosed })
+			mc.peerClose()
+		}
+		ctx, cancel := contextWithTimeout(3 * time.Second)
+		s.Shutdown(ctx)
+		cancel()
+		select {
+		case <-served:
+		case <-time.After(3 * time.Second):
+		}
+		mu.Lock()
+		owner := map[string]string{}
+		for i, mc := range conns {
+			ids := seen[mc.name]
+			want := fmt.Sprintf("%08x", i+1)
+			rep.Evaluations++
+			rep.Distribution["burst-connection"]++
+			if len(ids) != 1 || ids[want] != 2 {
+				viol("session-id", map[string]interface{}{"what": "handler invocations of one connection of a burst did not see the session id established for that connection (ids are assigned in accept order)",
+					"connection": mc.name, "want": want, "seen": fmt.Sprint(ids), "round": round})
+			}
+			for id := range ids {
+				if o, dup := owner[id]; dup && o != mc.name {
+					viol("session-id", map[string]interface{}{"what": "two connections of a burst share a session id", "id": id, "connections": o + ", " + mc.name, "round": round})
+				}
+				owner[id] = mc.name
+			}
+		}
+		mu.Unlock()
+		runtime.GOMAXPROCS(procs)
+	}
+}
+
+// responseTimeStamp: the Time Stamp of a response message's header (seconds), or false
+func responseTimeStamp(msg []byte) (int64, bool) {
+	var all []*item
+	walkItems(msg, 0, 0, &all)
+	for _, it := range all {
+		if it.depth == 2 && msg[it.off] == 0x42 && msg[it.off+1] == 0x00 && msg[it.off+2] == 0x92 && it.typ == 9 && it.length == 8 {
+			return int64(binary.BigEndian.Uint64(msg[it.hdrEnd:])), true
+		}
+	}
+	return 0, false
+}
+
+// sessionIdleTimestamps (C07 "bears the server's current time"): a kept-alive connection that idles before a request, and a
+// request that trickles in slowly: the response's Time Stamp is the time the response was produced - not older than the
+// moment the request's last byte was sent, however long the server had been waiting for it.  Returns violations.
+func sessionIdleTimestamps() []map[string]interface{} {
+	var out []map[string]interface{}
+	s := &kmip.Server{Log: log.New(io.Discard, "", 0)}
+	lis := newMemListener()
+	served := make(chan error, 1)
+	init := make(chan struct{})
+	go func() { served <- s.Serve(lis, init) }()
+	<-init
+	mc := newMemConn("idle")
+	lis.ch <- acceptResult{conn: mc}
+	req := dvRequest()
+	idle := 2300 * time.Millisecond
+	steps := []struct {
+		name  string
+		parts [][]byte
+	}{
+		{"first request on a connection that idled after being accepted", [][]byte{nil, req}},
+		{"request after the connection idled", [][]byte{nil, req}},
+		{"request sent right after the previous response", [][]byte{req}},
+		{"request trickling in: header, pause, rest", [][]byte{req[:11], req[11:]}},
+	}
+	for i, st := range steps {
+		for j, p := range st.parts {
+			if j > 0 {
+				time.Sleep(idle)
+			}
+			if len(p) > 0 {
+				mc.peerSend(p)
+			}
+		}
+		sent := time.Now()
+		if !mc.waitUntil(5*time.Second, func() bool { return len(splitMessages(mc.out)) >= i+1 || mc.localClosed }) || mc.localClosed {
+			out = append(out, map[string]interface{}{"kind": "timestamp", "what": "no response on an idle-then-active connection", "step": st.name})
+			break
+		}
+		recv := time.Now()
+		mc.mu.Lock()
+		msgs := splitMessages(mc.out)
+		mc.mu.Unlock()
+		ts, ok := responseTimeStamp(msgs[i])
+		if !ok || ts < sent.Unix()-1 || ts > recv.Unix()+1 {
+			out = append(out, map[string]interface{}{"kind": "timestamp", "what": "response Time Stamp is not the server's current time (older than the moment the request was completed, or in the future)",
+				"step": st.name, "time_stamp": ts, "request_completed_at": sent.Unix(), "response_received_at": recv.Unix(), "response": hexBytes(msgs[i])})
+		}
+	}
+	mc.peerClose()
+	ctx, cancel := contextWithTimeout(3 * time.Second)
+	s.Shutdown(ctx)
+	cancel()
+	select {
+	case <-served:
+	case <-time.After(3 * time.Second):
+	}
+	return out
+}
+
 func suiteSession(args []string) {
 	fs := flag.NewFlagSet("session", flag.ExitOnError)
 	seed := fs.Int64("seed", 1, "")
@@ -654,6 +802,8 @@ func suiteSession(args []string) {
 		}
 	}
 	baseline := runtime.NumGoroutine()
+	idleDone := make(chan []map[string]interface{}, 1)
+	go func() { idleDone <- sessionIdleTimestamps() }()
 	nontrivial := map[string]bool{}
 	for i := 0; i < *n; i++ {
 		k := 1
@@ -722,6 +872,12 @@ func suiteSession(args []string) {
 			}
 		}
 	}
+	for _, v := range <-idleDone {
+		rep.Violations = append(rep.Violations, v)
+	}
+	rep.Evaluations += 4
+	rep.Distribution["idle-timestamp"] += 4
+	sessionBurst(rep, viol)
 	// truncation sweep (C10): one valid request ending in a Message Extension with a Vendor Extension item (the skipped
 	// position), preceded by a complete valid request; every proper prefix of the second one followed by close
 	{
